@@ -19,6 +19,7 @@ static const Part kParts[] = {
 	{"C11", "image-damage", 32, 3200},
 	{"C12", "stream-actors", 60000, 3000000},
 	{"C13", "stream-actors", 40000, 2000000},
+	{"C13", "archive-streams", 3000, 300000},
 	{"C14", "writer-actors", 40000, 2000000},
 	{"C14", "copy-matrix", 4000, 200000},
 	{"C14", "filewriter-matrix", 300, 20000},
